@@ -13,8 +13,9 @@ BASE = "minunits=maa:mbb,basefee=5,taxnum=2,taxden=5,mintnum=1,mintden=2"
 C09_MC_CFG = "users=3,stake=7," + BASE                       # MC_Token.cfg, MC_TokenId.cfg
 C09_GEN_CFG = "users=3,stake=40," + BASE                     # GEN_Token.cfg
 REG = ",regin=maa,regout=mbb,regrn=3,regrd=2"
-C10_MC_CFG = "users=2,quirks=1,stake=9," + BASE + REG        # MC_TokenErc.cfg (+ math rows: no chain)
-C10_GEN_CFG = "users=2,quirks=1,stake=40," + BASE + REG      # GEN_TokenErc.cfg
+BASE_IBC = "minunits=maa:mbb:ibc/x1,ibc=3,basefee=5,taxnum=2,taxden=5,mintnum=1,mintden=2"
+C10_MC_CFG = "users=2,quirks=1,stake=9," + BASE_IBC + REG    # MC_TokenErc.cfg, MC_TokenLife.cfg (+ math rows: no chain)
+C10_GEN_CFG = "users=2,quirks=1,stake=40," + BASE_IBC + REG  # GEN_TokenErc.cfg
 
 # random histories draw their own configuration (tax, ratios, swap ratio, fees);
 # every history mixes all message types, the pure function included
@@ -31,8 +32,12 @@ C09_SCN = [dict(file="scenarios/token_F5.ndjson", cfg=C09_GEN_CFG),
            # one name as symbol of one token and min unit of another (separate key spaces)
            dict(file="scenarios/token_namespace.ndjson", cfg=C09_GEN_CFG)]
 
-C10_MC = T([dict(cfg="MC_TokenMath.cfg", timeout=900, workers=4, heap="4g"), dict(cfg="MC_TokenErc.cfg", timeout=900, heap="4g")],
-           [dict(cfg="MC_TokenMath.cfg", timeout=900, workers=4, heap="4g"), dict(cfg="MC_TokenErc_big.cfg", timeout=3000, heap="4g")])
+# MC_TokenLife: the ERC20 life cycle beyond C10 (deploy for a token / the native token /
+# an IBC denom / twice, upgrade, the hook on foreign and malformed logs), diagnostics X10_*
+C10_MC = T([dict(cfg="MC_TokenMath.cfg", timeout=900, workers=4, heap="4g"), dict(cfg="MC_TokenErc.cfg", timeout=900, heap="4g"),
+            dict(cfg="MC_TokenLife.cfg", timeout=900, heap="4g")],
+           [dict(cfg="MC_TokenMath.cfg", timeout=900, workers=4, heap="4g"), dict(cfg="MC_TokenErc_big.cfg", timeout=3000, heap="4g"),
+            dict(cfg="MC_TokenLife_big.cfg", timeout=3000, heap="4g")])
 C10_GEN = T([dict(cfg="GEN_TokenErc.cfg", num=20, depth=16, seeds=6, driver_cfg=C10_GEN_CFG),
              dict(cfg="GEN_TokenMath.cfg", mode="bfs", depth=401, seeds=1, driver_cfg="")],
             [dict(cfg="GEN_TokenErc.cfg", num=60, depth=20, seeds=14, driver_cfg=C10_GEN_CFG),
@@ -41,6 +46,9 @@ C10_SCN = [dict(file="scenarios/token_F6.ndjson", cfg="users=3,stake=40," + BASE
            dict(file="scenarios/token_F6_panic.ndjson",
                 cfg="users=3,stake=40," + BASE + ",regin=maa,regout=mbb,regrn=2,regrd=1"),
            dict(file="scenarios/token_cover_c10.ndjson", cfg=C10_GEN_CFG),
+           # ERC20 life cycle, fee table for other symbol lengths, the F12 shape (diagnostics X..)
+           dict(file="scenarios/token_erc_life.ndjson",
+                cfg="users=3,quirks=1,stake=200,minunits=maa:mbb:mcc:ibc/x1,ibc=5,basefee=60,taxnum=2,taxden=5,mintnum=1,mintden=2"),
            dict(file="scenarios/token_cover_swap.ndjson",
                 cfg="users=3,stake=40," + BASE + ",regin=maa,regout=mbb,regrn=1,regrd=2"),
            # one name as symbol of one token and min unit of another: conversions, the hook
